@@ -97,6 +97,27 @@ Theorem C03_unseeded_is_seeded_with_the_draw : forall tbl s s' d c z, lookup_dra
 Proof. exact unseeded_is_seeded_with_draw. Qed.
 Print Assumptions C03_unseeded_is_seeded_with_the_draw.
 
+(* settings objects are state created at construction time.  A fit reads its own object ... *)
+Theorem C03_fit_depends_only_on_its_own_settings_object : forall s1 s2 k d,
+  nth_error (g_objs s1) k = nth_error (g_objs s2) k -> snd (step s1 (FitObj k d)) = snd (step s2 (FitObj k d)).
+Proof. exact fitobj_own_object. Qed.
+Print Assumptions C03_fit_depends_only_on_its_own_settings_object.
+
+(* ... nothing done with OTHER models (construct, fit, to_json, from_json; seeded or not) writes to it ... *)
+Theorem C03_other_models_leave_a_settings_object_alone : forall h s k ob,
+  forallb (fun o => negb (touches o k)) h = true -> nth_error (g_objs s) k = Some ob ->
+  nth_error (g_objs (fst (run s h))) k = Some ob.
+Proof. exact run_keeps_object. Qed.
+Print Assumptions C03_other_models_leave_a_settings_object_alone.
+
+(* ... so construct / anything with other models / fit gives what construct-and-fit-at-once gives *)
+Theorem C03_construct_interleave_fit : forall s h c z d,
+  forallb (fun o => negb (touches o (List.length (g_objs s)))) h = true ->
+  out (run s (NewHourly c (Some z) :: h ++ [FitObj (List.length (g_objs s)) d])) =
+  out (run s [FitHourly d c (Some z)]).
+Proof. intros. rewrite construct_interleave_fit by assumption. reflexivity. Qed.
+Print Assumptions C03_construct_interleave_fit.
+
 (* global state: a seeded fit does not move numpy's global generator; nothing ever writes the shared default list *)
 Theorem C03_seeded_fit_keeps_global_rng : forall s o, rng_clean o = true -> g_rng (fst (step s o)) = g_rng s.
 Proof. exact clean_keeps_rng. Qed.
@@ -110,26 +131,26 @@ Print Assumptions C03_shared_default_never_written.
    The same plumbing, as the SOURCE says it today (tables regenerated by harness/translate_repro.py on every run). *)
 Open Scope string_scope.
 
-(* full source statement: every consumer of randomness constructed in the scanned files is reached by the seed *)
-Definition C03_source_statement : Prop := forallb (site_ok attr_assigns bindings) consumer_sites = true.
+(* every consumer of randomness constructed in the scanned files is reached by the seed (or gets a literal) *)
+Theorem C03_seed_reaches_every_consumer_in_source :
+  forallb (site_ok attr_assigns bindings) consumer_sites = true.
+Proof. vm_compute. reflexivity. Qed.
+Print Assumptions C03_seed_reaches_every_consumer_in_source.
+(* ElasticNet <- settings.elasticnet._seed <- settings._seed <- settings.seed;
+   BisectingKMeans <- seed + i <- _cluster_time_series(seed) <- _cluster_temporal_features(seed) <-
+   settings.temporal_cluster._seed <- settings._seed; check_random_state <- self.random_state of that estimator;
+   silhouette_score <- the literal 0 *)
 
-(* as coded one consumer is not (frozen copy of the site; the harness replays it: score_metric="silhouette" moves the global
-   generator during a SEEDED fit) *)
-Definition silhouette_as_coded : site :=
+(* this was refuted until /repo 6be031d0 (proposed as C03-2): scoring.py score_clusters called
+   silhouette_score(.., sample_size=10_000) without random_state, so a SEEDED hourly fit with score_metric="silhouette"
+   drew from numpy's global generator.  Frozen copy of that site, kept as the regression witness: *)
+Definition silhouette_before_6be031d0 : site :=
   {| s_file := "opendsm/common/clustering/scoring.py"; s_func := "score_clusters"; s_callee := "silhouette_score";
      s_kwargs := ["metric"; "sample_size"]; s_dead := false; s_src := SAbsent |}.
-Theorem C03_seed_reaches_every_consumer_in_source_refuted :
-  site_ok attr_assigns bindings silhouette_as_coded = false /\ silhouette_site silhouette_as_coded = true.
+Theorem C03_unseeded_silhouette_site_is_rejected :
+  site_ok attr_assigns bindings silhouette_before_6be031d0 = false /\ silhouette_site silhouette_before_6be031d0 = true.
 Proof. vm_compute. split; reflexivity. Qed.
-Print Assumptions C03_seed_reaches_every_consumer_in_source_refuted.
-
-(* partial: every other site.  ElasticNet <- settings.elasticnet._seed <- settings._seed <- settings.seed;
-   BisectingKMeans <- seed + i <- _cluster_time_series(seed) <- _cluster_temporal_features(seed) <-
-   settings.temporal_cluster._seed <- settings._seed; check_random_state <- self.random_state of that estimator *)
-Theorem C03_seed_reaches_every_consumer_in_source_partial :
-  forallb (fun s => site_ok attr_assigns bindings s || silhouette_site s) consumer_sites = true.
-Proof. vm_compute. reflexivity. Qed.
-Print Assumptions C03_seed_reaches_every_consumer_in_source_partial.
+Print Assumptions C03_unseeded_silhouette_site_is_rejected.
 
 (* the model's list of consumers is the source's list: the live, non-exempt construction sites are exactly these *)
 Theorem C03_model_consumers_are_the_source_consumers :
@@ -155,6 +176,14 @@ Theorem C03_no_shared_mutable_default :
   forallb mdefault_ok mutable_defaults = true.
 Proof. vm_compute. reflexivity. Qed.
 Print Assumptions C03_no_shared_mutable_default.
+
+(* the seed is written onto the settings object's OWN nested objects: every nested settings default is built per
+   instance (default_factory or copied), never one shared instance; checked on two really constructed objects *)
+Theorem C03_nested_settings_are_per_instance :
+  (0 < List.length nested_defaults)%nat /\ (2 <= List.length (filter (fun a => negb (String.eqb (a_owner a) "")) attr_assigns))%nat /\
+  forallb (seed_write_ok nested_defaults) attr_assigns = true.
+Proof. vm_compute. split; [repeat constructor|split; [repeat constructor|reflexivity]]. Qed.
+Print Assumptions C03_nested_settings_are_per_instance.
 
 (* the start vector every optimiser is given (and mutates in place, optimize.py obj_fcn_dec) is made for that call *)
 Theorem C03_optimiser_start_vectors_are_fresh :
@@ -191,6 +220,15 @@ Example C03_nonvacuous_draw :
   norm_res tbl (out (run (init 1 1) [RngSeed 5; FitHourly 1 ex_cfg None])) =
   norm_res tbl (out (run (init 2 1) [FitHourly 1 ex_cfg (Some 99)])).
 Proof. vm_compute. reflexivity. Qed.
+
+(* two models prepared first (seeds 1 and 3), a default model built and a fitted one reloaded in between, fitted afterwards *)
+Example C03_nonvacuous_interleaving :
+  let h := [NewHourly ex_cfg (Some 3); NewHourly ex_cfg None; FitObj 1 5; ToJson 1; FromJson 1; FitObj 2 5] in
+  forallb (fun o => negb (touches o 0)) h = true /\
+  out (run (init 1 1) (NewHourly ex_cfg (Some 1) :: h ++ [FitObj 0 5])) = out (run (init 2 1) [FitHourly 5 ex_cfg (Some 1)]) /\
+  out (run (init 1 1) (NewHourly ex_cfg (Some 1) :: h ++ [FitObj 0 5])) <>
+  out (run (init 1 1) (NewHourly ex_cfg (Some 1) :: [NewHourly ex_cfg (Some 3); FitObj 1 5])).
+Proof. vm_compute. repeat split; try reflexivity. discriminate. Qed.
 
 Example C03_nonvacuous_batch :
   forallb seeded [FitDaily 1 0; FitBilling 2 0; FitHourly 3 ex_cfg (Some 1)] = true /\
